@@ -1,20 +1,22 @@
 (* Cells of a cell grid: text (CSV) or native (Excel / JSON) values.  Numbers and timestamps
-   are opaque tokens: pdtable never computes with them. *)
+   are opaque tokens: pdtable never computes with them.  A native cell carries the results of
+   the two python conversions pdtable applies to it - str(x) and float(x) - as fields
+   (hypothesis H_native: the harness fills them from the interpreter). *)
 From Coq Require Export ZArith.
 From PdV Require Export Text.
 
-Definition ftok := N.   (* IEEE-754 binary64 bit pattern of a python float *)
-Definition dtok := Z.   (* a datetime: nanoseconds since epoch; NaT has its own constructor *)
+Definition ftok := N.   (* IEEE-754 binary64 bit pattern of a python float; NaN canonicalised *)
+Definition dtok := Z.   (* a timestamp: nanoseconds since the epoch *)
 
 Inductive cell :=
 | CStr (s : str)
 | CNone
-| CInt (z : Z)          (* python int (not bool) *)
-| CFloat (f : ftok)     (* python float *)
+| CInt (z : Z) (fl : ftok) (repr : str)     (* python int (not bool), float(z), str(z) *)
+| CFloat (f : ftok) (repr : str)            (* python float, str(f) *)
 | CBool (b : bool)
-| CDate (d : dtok)      (* datetime.datetime / pd.Timestamp *)
-| CNaT                  (* pd.NaT: an instance of datetime.datetime *)
-| COther (tag : N).     (* any other python object (date, time, bytes, ...) *)
+| CDate (d : dtok) (repr : str)             (* datetime.datetime / pd.Timestamp, str(d) *)
+| CNaT                                      (* pd.NaT: an instance of datetime.datetime *)
+| COther (tag : N) (repr : str).            (* any other python object (date, time, ...) *)
 
 Definition row := list cell.
 
@@ -24,4 +26,27 @@ Definition cell_blank (c : cell) : bool :=
   | CNone => true
   | CStr s => is_blank s
   | _ => false
+  end.
+
+Local Open Scope N_scope.
+Definition nan_tok : ftok := 9221120237041090560.      (* 0x7ff8000000000000 *)
+Definition zero_tok : ftok := 0.
+Definition negzero_tok : ftok := 9223372036854775808.  (* 0x8000000000000000 *)
+Definition one_tok : ftok := 4607182418800017408.      (* 0x3ff0000000000000 *)
+
+(* str(x) of a cell *)
+Definition s_None : str := [78; 111; 110; 101].
+Definition s_True : str := [84; 114; 117; 101].
+Definition s_False : str := [70; 97; 108; 115; 101].
+Definition s_NaT : str := [78; 97; 84].
+Definition cell_str (c : cell) : str :=
+  match c with
+  | CStr s => s
+  | CNone => s_None
+  | CInt _ _ r => r
+  | CFloat _ r => r
+  | CBool b => if b then s_True else s_False
+  | CDate _ r => r
+  | CNaT => s_NaT
+  | COther _ r => r
   end.
